@@ -18,7 +18,7 @@ git apply $SD/patch.diff; RC_APPLY=$?
 rm -f $WT/_demo_test.py
 SUITE="skipped"; RC_SUITE=-1
 if [ "$NOSUITE" != "--no-suite" ]; then
-  /venv/bin/python -m pytest -q -p no:cacheprovider --timeout=900 tests > $SD/verify_suite.log 2>&1; RC_SUITE=$?
+  /venv/bin/python -m pytest -q -p no:cacheprovider --timeout=2400 tests > $SD/verify_suite.log 2>&1; RC_SUITE=$?
   SUITE=$(tail -1 $SD/verify_suite.log)
 fi
 cat > $OUT <<JSON
